@@ -68,7 +68,10 @@ def run(pid, tier, runs, assumptions, rule, signature=default_signature, extra_c
     for r in runs:
         if only and r.get('name') not in only.split(','):
             continue
-        cases, st = tlc.run_sharded('TTPool', r['constants'], r.get('nshards', 16), tag=r.get('name', 'g'),
+        consts = dict(r['constants'])
+        if 'Ops' in consts:
+            consts['OpsAt'] = [consts.pop('Ops')] * consts['MaxDepth']
+        cases, st = tlc.run_sharded('TTPool', consts, r.get('nshards', 16), tag=r.get('name', 'g'),
                                     invariants=['Emit', 'Consistent'], properties=['ValueSemantics'])
         states += st['distinct']
         trans += st['generated']
